@@ -4,7 +4,7 @@ Hypothesis owns the *schedule program* (threads, operations, barrier points); th
 (built twice: clang ThreadSanitizer `mt_tsan`, g++ -O2 `mt_rel`) owns the threads.  check_case() only runs the harness
 binaries as subprocesses on the saved schedule, so --replay needs nothing but the case.
 """
-import os, re, shutil, subprocess, time, json, hashlib
+import os, re, shutil, signal, subprocess, time, json, hashlib
 from hypothesis import strategies as st
 from .. import lib
 from .. import c06_wl as wl
@@ -37,14 +37,19 @@ LEVEL_TEXT = ("Exploration: each run executes tens (quick) to about a thousand (
               "the same whether its thread ran alone, sequentially, or concurrently with up to 7 others, and ids must be unique. Limits: "
               "schedules and interleavings are sampled; TSan sees only executed paths; the qsort lock cannot be observed on glibc.")
 FLOORS = {"quick": 40, "thorough": 600}
-SHARDS = {"quick": 4, "thorough": 8}
-BUDGET = {"quick": 16, "thorough": 110, "replay": 1}
+_NSH = os.environ.get("VERIF_C06_SHARDS")       # development only: fewer worker processes on a shared machine (same total budget)
+SHARDS = {"quick": int(_NSH) if _NSH else 8, "thorough": int(_NSH) if _NSH else 16}
+BUDGET = {"quick": 64, "thorough": 1200, "replay": 1}      # schedules per run (all shards together)
 
-TIMEOUT = float(os.environ.get("VERIF_C06_TIMEOUT", "300"))
-TSAN_OPTS = "halt_on_error=0 exitcode=66 report_signal_unsafe=0 second_deadlock_stack=1 history_size=4"
+TIMEOUT = float(os.environ.get("VERIF_C06_TIMEOUT", "300"))     # generous: a harness execution normally takes 0.02 - 1 s
+TSAN_OPTS = ("halt_on_error=0 exitcode=66 report_signal_unsafe=0 second_deadlock_stack=1 history_size=4 "
+             "symbolize=1 external_symbolizer_path=/usr/bin/llvm-symbolizer")
 SUPP = os.path.join(os.path.dirname(os.path.abspath(__file__)), "..", "c06_tsan.supp")
-REL_ITERS = 10
-HEAVY = ["transport", "kin_cvode", "kin_rk", "inverse"]
+TSAN_CONC = 3          # concurrent executions under ThreadSanitizer per schedule
+REL_CONC = 3           # concurrent release-build processes per schedule ...
+REL_ITERS = 10         # ... each repeating the schedule this many times
+SHRINK_EVALS = 12      # schedule evaluations allowed after the first violation in a shard (shrinking)
+HEAVY = ["transport", "transport_md", "kin_cvode", "kin_rk", "inverse"]
 
 
 def prepare(tier):
@@ -60,8 +65,10 @@ def binpath(variant):
 class _T:
     """generation-time state of one thread"""
 
-    def __init__(self):
+    def __init__(self, transport_ok=True):
         self.ops, self.live, self.nslot = [], {}, 0
+        self.transport_ok = transport_ok     # known finding C06-transport-globals: TRANSPORT runs are confined to one thread
+        self.excluded = 0
 
 
 def _mask(draw):
@@ -83,7 +90,7 @@ def _create(draw, t):
 
 
 def _load(draw, t, s):
-    db = draw(st.sampled_from(wl.DATABASES))
+    db = draw(st.sampled_from(wl.DB_WEIGHTED))
     t.ops.append({"op": "load", "s": s, "db": db, "via": draw(st.sampled_from(["file", "file", "string"]))})
     t.live[s] = db
 
@@ -95,6 +102,9 @@ def _set(draw, t, s):
 def _run(draw, t, s, heavy=False):
     db = t.live[s]
     names = [n for n in sorted(wl.WORKLOADS) if db in wl.WORKLOADS[n] and (not heavy or n in HEAVY)]
+    if not t.transport_ok:
+        names = [n for n in names if n not in wl.TRANSPORT_WL]
+        t.excluded += 1      # a draw from which the transport workloads were struck (exclusion by construction, counted)
     t.ops.append({"op": "run", "s": s, "wl": draw(st.sampled_from(names)), "p": draw(st.integers(0, wl.NPARAM - 1)),
                   "via": draw(st.sampled_from(["string", "string", "file", "accum"]))})
 
@@ -144,13 +154,14 @@ def _free(draw, t):
 
 
 PATTERNS = {"run_destroy": ["run", "destroy"], "run_create": ["run", "create"], "create_destroy": ["create", "destroy"],
-            "load_run": ["load", "run"], "all_create": ["create", "create"], "mixed": None}
+            "load_run": ["load", "run"], "all_create": ["create", "create"], "all_run": ["run", "run"], "mixed": None}
 
 
 @st.composite
 def case_strategy(draw):
     n = draw(st.sampled_from([2, 2, 3, 3, 3, 4, 4, 5, 6, 8]))
-    T = [_T() for _ in range(n)]
+    tt = draw(st.integers(0, n - 1))      # the only thread whose program may contain TRANSPORT runs
+    T = [_T(i == tt) for i in range(n)]
     nbar = draw(st.integers(1, 4))
     counts, patterns = [], []
     for b in range(nbar):
@@ -162,7 +173,7 @@ def case_strategy(draw):
         base = PATTERNS[pat]
         for j, ti in enumerate(part):
             t = T[ti]
-            role = base[j] if base and j < 2 else draw(st.sampled_from(base or ["run", "create", "destroy", "load"]))
+            role = base[j] if base and j < 2 else draw(st.sampled_from(sorted(set(base)) if base else ["run", "create", "destroy", "load"]))
             for _ in range(draw(st.integers(0, 1))):
                 _free(draw, t)
             # preparation before the barrier, the role operation right after it
@@ -207,7 +218,16 @@ def case_strategy(draw):
                 _run(draw, t, s)
                 _read(t, s)
             _destroy(t, s)
-    return {"kind": "sched", "threads": [t.ops for t in T], "barriers": counts, "patterns": patterns}
+    threads = [t.ops for t in T]
+    # an extra thread that replays the call history of another thread's instances without taking part in any barrier:
+    # same histories, different interleaving, same process -> the observations of the twins must be equal
+    cand = [i for i in range(n) if not any(o["op"] == "run" and o["wl"] in wl.TRANSPORT_WL for o in threads[i])]
+    twin = n < 8 and bool(cand) and draw(st.integers(0, 3)) == 0
+    if twin:
+        src = draw(st.sampled_from(cand))
+        threads.append([dict(o) for o in threads[src] if o["op"] != "bar"])
+    return {"kind": "sched", "threads": threads, "barriers": counts, "patterns": patterns + (["twin_thread"] if twin else []),
+            "excluded_transport_draws": sum(t.excluded for t in T)}
 
 
 # ------------------------------------------------------------------------------- schedule rendering
@@ -225,7 +245,7 @@ def render(case, sd):
                 L.append("create %d %s" % (o["s"], o["api"]))
             elif k == "load":
                 db = o["db"]
-                L.append("load %d %s %s" % (o["s"], o["via"], db if os.path.isabs(db) else os.path.join(lib.DBDIR, db)))
+                L.append("load %d %s %s" % (o["s"], o["via"], wl.dbpath(db)))
             elif k == "set":
                 L.append("set %d %x" % (o["s"], o["mask"]))
             elif k == "run":
@@ -282,9 +302,93 @@ def parse_result(path):
     return recs, stats, ids, complete
 
 
+# ---- watchdog.  Time never decides a verdict: an execution that exceeds the limit while its threads still consume CPU is
+# "slow" -> the case is discarded (counted, inconclusive).  A *deadlock* needs positive evidence from the kernel: at
+# consecutive samples (POLL seconds apart, BLOCKED_SAMPLES times in a row) every thread of the harness process sleeps (state S)
+# inside futex(2) - or, for the sanitizer's background thread, inside a sleep call - with unchanged CPU ticks and unchanged
+# context-switch counts of all futex waiters.  A process in that state has no thread left that could wake another one.
+# Three executions of the same schedule must all end like that before a deadlock is reported.
+POLL = 5.0
+BLOCKED_SAMPLES = 6
+SYS_FUTEX, SYS_SLEEPS = 202, (35, 230)       # x86-64: futex; nanosleep, clock_nanosleep
+
+
+def sample_threads(pid):
+    """{tid: (state, cpu ticks, context switches, syscall number or None)}; None when the process is gone"""
+    out = {}
+    try:
+        tids = os.listdir("/proc/%d/task" % pid)
+    except OSError:
+        return None
+    for tid in tids:
+        base = "/proc/%d/task/%s/" % (pid, tid)
+        try:
+            with open(base + "stat") as f:
+                st = f.read()
+            rest = st[st.rindex(")") + 2:].split()
+            with open(base + "status") as f:
+                sw = sum(int(l.split()[1]) for l in f if "ctxt_switches" in l)
+            with open(base + "syscall") as f:
+                sc = f.read().split()
+            nr = int(sc[0]) if sc and sc[0].lstrip("-").isdigit() else None
+            out[tid] = (rest[0], int(rest[11]) + int(rest[12]), sw, nr)
+        except (OSError, ValueError, IndexError):
+            return None
+    return out
+
+
+def all_blocked(a, b):
+    if not a or not b or set(a) != set(b):
+        return False
+    nfutex = 0
+    for tid in a:
+        for s in (a[tid], b[tid]):
+            if s[0] != "S" or s[3] is None:
+                return False
+        if a[tid][3] == SYS_FUTEX and b[tid][3] == SYS_FUTEX:
+            if a[tid][1:3] != b[tid][1:3]:
+                return False
+            nfutex += 1
+        elif not (a[tid][3] in SYS_SLEEPS and b[tid][3] in SYS_SLEEPS):
+            return False
+    return nfutex >= 1
+
+
+def run_watched(cmd, wd, env, limit):
+    """-> (returncode | None, stderr text, verdict) with verdict in {"done", "blocked", "slow"}"""
+    errp = os.path.join(wd, "stderr.txt")
+    with open(errp, "wb") as ef:
+        p = subprocess.Popen(cmd, cwd=wd, env=env, stdout=subprocess.DEVNULL, stderr=ef, start_new_session=True)
+        t0 = time.monotonic()
+        prev, still, verdict = None, 0, "done"
+        while True:
+            try:
+                p.wait(timeout=POLL if prev is not None or limit > POLL else limit)
+                break
+            except subprocess.TimeoutExpired:
+                pass
+            cur = sample_threads(p.pid)
+            still = still + 1 if all_blocked(prev, cur) else 0
+            prev = cur
+            if still >= BLOCKED_SAMPLES:
+                verdict = "blocked"
+            elif time.monotonic() - t0 > limit:
+                verdict = "slow"
+            if verdict != "done":
+                try:
+                    os.killpg(p.pid, signal.SIGKILL)
+                except OSError:
+                    pass
+                p.wait()
+                break
+    with open(errp, "rb") as f:
+        err = f.read().decode("latin-1")
+    return (p.returncode if verdict == "done" else None), err, verdict
+
+
 def execute(ctx, variant, sched, sd, tag, args, full=False):
-    """one harness process in its own working directory; retried when it hangs (3 hangs = deadlock)"""
-    hangs = 0
+    """one harness process in its own working directory"""
+    blocked = 0
     while True:
         wd = os.path.join(sd, tag)
         shutil.rmtree(wd, ignore_errors=True)
@@ -298,19 +402,22 @@ def execute(ctx, variant, sched, sd, tag, args, full=False):
             env["TSAN_OPTIONS"] = opts
         cmd = [binpath(variant)] + args + (["--full", os.path.join(wd, "full")] if full else []) + ["--out", out, sched]
         r = Res()
-        r.hung = False
-        try:
-            p = subprocess.run(cmd, cwd=wd, env=env, stdout=subprocess.PIPE, stderr=subprocess.PIPE, timeout=TIMEOUT)
-            r.rc, r.stderr = p.returncode, p.stderr.decode("latin-1")
-        except subprocess.TimeoutExpired as e:
-            r.rc, r.stderr, r.hung = None, (e.stderr or b"").decode("latin-1"), True
+        r.rc, r.stderr, verdict = run_watched(cmd, wd, env, TIMEOUT)
+        r.hung = verdict != "done"
         ctx._beat = time.time()
-        if r.hung:
-            hangs += 1
-            if hangs >= 3:
-                raise Violation("deadlock", "%s %s did not finish within %.0f s in 3 consecutive executions" % (variant, " ".join(args), TIMEOUT))
-            ctx.event("hang_retried")
+        if verdict == "slow":
+            ctx.event("timeout_inconclusive")
+            raise Discard("inconclusive: a harness execution was still running (consuming CPU) after %.0f s" % TIMEOUT)
+        if verdict == "blocked":
+            blocked += 1
+            if blocked >= 3:
+                raise Violation("deadlock", "%s %s: in 3 of 3 executions every thread of the harness process ended up sleeping in "
+                                "futex(2) with no CPU time and no context switch during %d consecutive samples %.0f s apart (no thread "
+                                "left that could wake another)" % (variant, " ".join(args), BLOCKED_SAMPLES + 1, POLL))
+            ctx.event("blocked_execution_retried")
             continue
+        if blocked:
+            ctx.notes.append("an execution with all threads blocked was not reproduced (%d of %d) for case schedule %s" % (blocked, blocked + 1, tag))
         r.recs, r.stats, r.ids, r.complete = parse_result(out)
         if not full:
             shutil.rmtree(wd, ignore_errors=True)
@@ -319,21 +426,42 @@ def execute(ctx, variant, sched, sd, tag, args, full=False):
         return r
 
 
+def split_reports(stderr):
+    """the individual ThreadSanitizer reports of one execution"""
+    out = []
+    for blk in stderr.split("=================="):
+        if "ThreadSanitizer" in blk and ("WARNING:" in blk or "FATAL:" in blk):
+            out.append(blk.strip("\n"))
+    return out
+
+
+_FRAME = re.compile(r"#\d+ (.+?) (/[^\s:()]+)(?::\d+)*(?: \(|$)", re.M)
+
+
+def library_frames(report):
+    """source files below the library tree that appear in the report's stacks"""
+    root = os.path.realpath(os.path.join(lib.REPO, "src")) + os.sep
+    return sorted({f for _, f in _FRAME.findall(report) if os.path.realpath(f).startswith(root)})
+
+
 def tsan_reports(r):
-    return r.stderr.count("WARNING: ThreadSanitizer") + r.stderr.count("FATAL: ThreadSanitizer")
+    """reports that involve library code.  A report whose stacks lie entirely inside the harness (or that could not be symbolised)
+    is a defect of this check, never a verdict about the library: it aborts the shard as a harness error (=> INCONCLUSIVE)."""
+    reps = split_reports(r.stderr)
+    libreps = [x for x in reps if library_frames(x)]
+    if reps and not libreps:
+        raise RuntimeError("ThreadSanitizer report without any frame in %s/src (harness bug or unsymbolised report):\n%s" % (lib.REPO, reps[0][:3000]))
+    return libreps
 
 
-def first_report(stderr, lim=3500):
-    i = stderr.find("ThreadSanitizer")
-    i = max(0, stderr.rfind("\n", 0, i))
-    j = stderr.find("==================", i + 40)
-    return stderr[i:(j if j > 0 else len(stderr))][:lim]
+def first_report(reps, lim=6000):
+    return reps[0][:lim] if reps else ""
 
 
-def report_signature(stderr):
-    m = re.search(r"ThreadSanitizer: ([a-z \-]+)", stderr)
+def report_signature(rep):
+    m = re.search(r"ThreadSanitizer: ([a-z \-]+)", rep)
     kind = m.group(1).strip() if m else "?"
-    fr = re.findall(r"#0 (\S+)", stderr)
+    fr = re.findall(r"#0 (\S+)", rep)
     return kind + " @ " + "/".join(fr[:2])
 
 
@@ -443,6 +571,7 @@ def diff_text(ctx, variant, sched, sd, case, detail):
 
 
 _memo = {}
+_after_fail = [0]      # evaluations spent after the first violation of this process (= shrinking)
 
 
 def check_case(case, ctx):
@@ -451,11 +580,22 @@ def check_case(case, ctx):
         v = _memo[h]
         if isinstance(v, Violation):
             raise Violation(v.oracle, v.msg, v.detail)
+        if isinstance(v, Discard):
+            raise Discard(v.why)
         return v
+    failed_before = any(isinstance(v, Violation) for v in _memo.values())
+    if failed_before and ctx.tier != "replay":
+        # shrinking re-evaluates a whole schedule (seconds) per attempt: bounded by a count, the smallest failing case so far is kept
+        _after_fail[0] += 1
+        if _after_fail[0] > SHRINK_EVALS:
+            raise Discard("not evaluated: shrink budget of %d evaluations after a violation is used up" % SHRINK_EVALS)
     try:
         info = _check(case, ctx)
     except Violation as v:
         _memo[h] = v
+        raise
+    except Discard as d:
+        _memo[h] = d
         raise
     _memo[h] = info
     return info
@@ -470,29 +610,34 @@ def _check(case, ctx):
         sched = render(case, sd)
         n = len(case["threads"])
         classes = ["threads=%d" % n] + ["barrier:" + p for p in sorted(set(case.get("patterns", [])))]
+        if case.get("excluded_transport_draws"):
+            ctx.event("excluded_by_construction:transport_in_second_thread(draws)", case["excluded_transport_draws"])
         # ---- (a) ThreadSanitizer build: sequential reference, then concurrent executions
         tseq = execute(ctx, "tsan", sched, sd, "tseq", ["--mode", "seq"])
         check_crash(tseq, "mt_tsan sequential")
-        if tsan_reports(tseq):
-            raise Violation("tsan", "ThreadSanitizer report in the *sequential* execution:\n" + first_report(tseq.stderr))
+        reps = tsan_reports(tseq)
+        if reps:
+            raise Violation("tsan", "ThreadSanitizer report in the *sequential* execution:\n" + first_report(reps))
         check_ids(tseq, "tsan sequential")
         reft = tseq.recs[0]
-        nrep, nexec, maxin, cdrun, loadrun, cc = 0, 0, 0, 0, 0, 0
-        rep_text = None
-        want = 10 if replay else 3
+        nrep, nexec, maxin, cdrun, loadrun, cc, rr = 0, 0, 0, 0, 0, 0, 0
+        rep_first = None
+        want = 10 if replay else TSAN_CONC
         k = 0
         while k < want:
             r = execute(ctx, "tsan", sched, sd, "tconc", ["--mode", "conc"])
             nexec += 1
             k += 1
-            if tsan_reports(r):
+            reps = tsan_reports(r)
+            if reps:
                 nrep += 1
-                if rep_text is None:
-                    rep_text = r.stderr
-                    want = max(want, 8)     # confirm: the report has to show up in a second execution
+                if rep_first is None:
+                    rep_first = reps
+                    want = max(want, 8)     # confirm: the report has to show up in a second execution of the schedule
                 if nrep >= 2:
-                    raise Violation("tsan", "ThreadSanitizer reported in %d of %d concurrent executions (signature: %s)\n%s" % (
-                        nrep, nexec, report_signature(rep_text), first_report(rep_text)))
+                    raise Violation("tsan", "ThreadSanitizer reported in %d of %d concurrent executions; library files involved: %s; "
+                                    "signature: %s\n%s" % (nrep, nexec, ", ".join(os.path.basename(f) for f in library_frames(rep_first[0])),
+                                                           report_signature(rep_first[0]), first_report(rep_first)))
             check_crash(r, "mt_tsan concurrent")
             compare(reft, r, "tsan concurrent #%d vs sequential" % k)
             check_ids(r, "tsan concurrent #%d" % k)
@@ -502,25 +647,29 @@ def _check(case, ctx):
                 cdrun = max(cdrun, int(s["cd_run"]))
                 loadrun = max(loadrun, int(s["load_run"]))
                 cc = max(cc, int(s["create_create"]))
+                rr = max(rr, int(s["run_run"]))
         if nrep == 1:
             ctx.event("tsan_report_not_reproduced")
-            ctx.notes.append("single unreproduced TSan report (1 of %d executions) case %s: %s" % (nexec, sha(case), first_report(rep_text, 1500)))
+            ctx.notes.append("single unreproduced TSan report (1 of %d executions) case %s: %s" % (nexec, sha(case), first_report(rep_first, 2500)))
         # ---- (b) release build: sequential, reverse, solo per thread, concurrent x iterations
         rseq = execute(ctx, "rel", sched, sd, "rseq", ["--mode", "seq"])
         check_crash(rseq, "mt_rel sequential")
         check_ids(rseq, "rel sequential")
         refr = rseq.recs[0]
         ntw = check_twins(case, rseq, "rel sequential")
-        rrev = execute(ctx, "rel", sched, sd, "rrev", ["--mode", "seq", "--reverse"])
+        rrev = execute(ctx, "rel", sched, sd, "rrev", ["--mode", "seq", "--reverse", "--iters", "2"])
         check_crash(rrev, "mt_rel reverse")
-        compare(refr, rrev, "rel sequential in reverse thread order vs sequential")
+        compare(refr, rrev, "rel sequential in reverse thread order (2 repetitions in one process) vs sequential")
+        check_ids(rrev, "rel reverse")
         for t in range(n):
             rs = execute(ctx, "rel", sched, sd, "rsolo", ["--mode", "seq", "--only", str(t)])
             check_crash(rs, "mt_rel solo")
             compare(refr, rs, "rel thread %d alone in a fresh process vs sequential" % t, threads={t})
         rmax = 0
-        for k in range(5 if replay else 3):
-            r = execute(ctx, "rel", sched, sd, "rconc", ["--mode", "conc", "--iters", str(REL_ITERS * (3 if replay else 1))])
+        nconc = 5 if replay else REL_CONC
+        iters = REL_ITERS * (3 if replay else 1)
+        for k in range(nconc):
+            r = execute(ctx, "rel", sched, sd, "rconc", ["--mode", "conc", "--iters", str(iters)])
             check_crash(r, "mt_rel concurrent")
             try:
                 compare(refr, r, "rel concurrent #%d vs sequential" % (k + 1))
@@ -539,20 +688,32 @@ def _check(case, ctx):
             classes.append("load_overlaps_run")
         if cc:
             classes.append("create_overlaps_create")
+        if rr:
+            classes.append("run_overlaps_run")
         if ntw:
             classes.append("twin_histories")
+        nrun = sum(1 for ops in case["threads"] for o in ops if o["op"] == "run")
+        ninst = sum(1 for ops in case["threads"] for o in ops if o["op"] == "create")
+        classes.append("runs:" + ("1-3" if nrun <= 3 else "4-8" if nrun <= 8 else "9-16" if nrun <= 16 else ">16"))
+        classes.append("instances:" + ("1-3" if ninst <= 3 else "4-8" if ninst <= 8 else ">8"))
         apis = {o["api"] for ops in case["threads"] for o in ops if o["op"] == "create"}
         classes += ["api:" + a for a in sorted(apis)]
         for w in sorted({o["wl"] for ops in case["threads"] for o in ops if o["op"] == "run"}):
             classes.append("wl:" + w)
-        ctx.extra["harness_executions"] = ctx.extra.get("harness_executions", 0) + nexec + 3 + n + 3
-        ctx.extra["rel_concurrent_iterations"] = ctx.extra.get("rel_concurrent_iterations", 0) + 3 * REL_ITERS
-        ctx.extra["instances_compared"] = ctx.extra.get("instances_compared", 0) + \
-            sum(1 for ops in case["threads"] for o in ops if o["op"] == "create") * (nexec + 2 + 3 * REL_ITERS)
+        for d in sorted({o["db"] for ops in case["threads"] for o in ops if o["op"] == "load"}):
+            classes.append("db:" + d)
+        if any(o["op"] == "load" and o["via"] == "string" for ops in case["threads"] for o in ops):
+            classes.append("load_via_string")
+        for v in sorted({o["via"] for ops in case["threads"] for o in ops if o["op"] == "run"}):
+            classes.append("run_via:" + v)
+        ctx.extra["harness_executions"] = ctx.extra.get("harness_executions", 0) + nexec + 3 + n + nconc
+        ctx.extra["rel_concurrent_iterations"] = ctx.extra.get("rel_concurrent_iterations", 0) + nconc * iters
+        ctx.extra["instances_compared"] = ctx.extra.get("instances_compared", 0) + ninst * (nexec + 4 + nconc * iters)
         return {"nontrivial": nt, "classes": classes}
     finally:
         shutil.rmtree(sd, ignore_errors=True)
 
 
 def run(ctx):
-    ctx.hyp(case_strategy(), lambda c: check_case(c, ctx), BUDGET[ctx.tier], "sched")
+    per_shard = -(-BUDGET[ctx.tier] // ctx.nshards)
+    ctx.hyp(case_strategy(), lambda c: check_case(c, ctx), per_shard, "sched")
